@@ -319,7 +319,7 @@ Theorem pipeline_skip_only_if : forall E a w s p,
 Proof.
   intros E a w s p HloadE Hnd Hfiles Hin Hsel Hproc.
   (* the decision does not depend on formatter, order or generators: run the agreement for a run without generators *)
-  set (E' := whole_env (fun _ => None) (fun _ l => l) []).
+  set (E' := whole_env (fun _ => None) (fun _ l => l) rank0 []).
   assert (Hproc' : processed E' a w s p = false).
   { unfold processed, load_prev in *. rewrite HloadE in Hproc. exact Hproc. }
   pose proof (run_agree E' a w [] eq_refl eq_refl bytes (can_H w) can_dirc (can_locals w) [] s eq_refl
